@@ -22,7 +22,7 @@ import (
 // A scenario is a sequence of driver-controlled events; between two events the agent runs to quiescence
 // (synctest.Wait) unless the event is marked nowait, in which case the next event follows immediately.
 type step struct {
-	A      string `json:"a"` // Gather | Open | Reply | Timeout | Restart | Fail | Close | Settle
+	A      string `json:"a"` // Gather | Open | Reply | Timeout | Restart | Fail | Close | Settle | Hold | Free
 	K      int    `json:"k,omitempty"`
 	NoWait bool   `json:"nowait,omitempty"`
 }
@@ -114,6 +114,11 @@ type runner struct {
 	lastRes      int
 	seenG        int
 	curStep      int
+	holdMu       sync.Mutex
+	holdArmed    bool
+	holdNext     bool
+	holdCh       chan struct{}
+	holdFreed    bool
 }
 
 func cred(gen int) (string, string) {
@@ -552,9 +557,49 @@ func (r *runner) do(st step) string {
 		time.Sleep(40 * time.Second)
 
 		return "ok"
+	case "Hold":
+		// takes effect with the next event (Open or Reply): the driver's own observation goes through the loop as well
+		r.holdMu.Lock()
+		r.holdCh, r.holdFreed, r.holdNext = make(chan struct{}), false, true
+		r.holdMu.Unlock()
+
+		return "ok"
+	case "Free":
+		r.free()
+
+		return "ok"
 	}
 
 	return "skipped"
+}
+
+// yield is installed at the task loop's yield points (build tag verif): while armed, the next goroutine that is about
+// to enter loop.Run's select (its own error check already passed) is held there until the scenario says Free. Used by the
+// directed regression scenarios for the race between addCandidate and Restart.
+func (r *runner) yield(site string) {
+	if site != "run.select" {
+		return
+	}
+	r.holdMu.Lock()
+	if !r.holdArmed {
+		r.holdMu.Unlock()
+
+		return
+	}
+	r.holdArmed = false
+	ch := r.holdCh
+	r.holdMu.Unlock()
+	<-ch
+}
+
+func (r *runner) free() {
+	r.holdMu.Lock()
+	defer r.holdMu.Unlock()
+	r.holdArmed = false
+	if r.holdCh != nil && !r.holdFreed {
+		r.holdFreed = true
+		close(r.holdCh)
+	}
 }
 
 func (r *runner) isClosed() bool {
@@ -683,6 +728,8 @@ func (r *runner) run() (out []obsRec, err error) {
 		return nil, err
 	}
 	r.closed = make(chan struct{})
+	ice.VerifSetYield(r.yield)
+	defer ice.VerifSetYield(nil)
 	r.assignedPark, r.assignedSock = map[*parked]bool{}, map[*fudp]bool{}
 	r.assignedTurn, r.assignedXor = map[*fturn]bool{}, map[*xorCall]bool{}
 	first := obsRec{Ev: "Reset", Scn: r.sc.ID, Site: r.sc.Site, Fault: r.sc.Fault, GS: "New", GSPre: "New", Conn: "New", Res: []res{}, Pub: []pubEv{}, Arrived: []int{}}
@@ -692,6 +739,11 @@ func (r *runner) run() (out []obsRec, err error) {
 	apply := func(st step) {
 		n++
 		r.curStep = n
+		r.holdMu.Lock()
+		if r.holdNext && (st.A == "Open" || st.A == "Reply") {
+			r.holdNext, r.holdArmed = false, true
+		}
+		r.holdMu.Unlock()
 		ret := r.do(st)
 		if st.NoWait {
 			// the next event follows without letting the agent quiesce; nothing can be observed in between
@@ -701,6 +753,9 @@ func (r *runner) run() (out []obsRec, err error) {
 			return
 		}
 		r.quiesce()
+		r.holdMu.Lock()
+		r.holdArmed = false
+		r.holdMu.Unlock()
 		o := r.observe(n, st, ret, gspre, st.A == "Settle" && r.noneParked())
 		gspre = o.GS
 		out = append(out, o)
@@ -708,6 +763,7 @@ func (r *runner) run() (out []obsRec, err error) {
 	for _, st := range r.sc.Steps {
 		apply(st)
 	}
+	r.free()
 	// Whatever the scenario left undone is done as ordinary, logged steps: release the gates, close, let every timer fire.
 	for _, g := range r.gths {
 		if g.park != nil && !g.freed {
